@@ -9,11 +9,11 @@ COQ_CASE_TYPE = "case04"
 SHARD = 60
 RULE = ("systematic: every one of the 32 request methods called on an object that is (a) never connected, (b) connected and latched by each error kind "
         "(timeout, unexpected reply, device error line, USB exception, unsupported firmware, failed handshake, no device), (c) disconnected after an error, "
-        "(d) reconnected while latched; plus random histories of up to 12 calls against a conforming-device script with one disturbance "
+        "(d) reconnected while latched, (e) closed by disconnect / reboot / bootload, with and without the port's close() raising, then reconnected; plus random histories of up to 12 calls against a conforming-device script with one disturbance "
         "(fault / 26 empty reads / error line / wrong-name line / extra empties) at a random I/O position; the fake port records every write; "
         "non-trivial = history in which an error is recorded before the last call")
 TRUSTED = ["pyserial behaviour = fake port: write/readline succeed, return b'' on timeout, or raise SerialException", "error kinds are recognised by message prefix"]
-ASSUMPTIONS = ["faults are SerialException raised by write/readline/open; replies are ASCII"]
+ASSUMPTIONS = ["faults are SerialException raised by write/readline/open/close; replies are ASCII"]
 EXHAUSTIVE = False
 
 def _latchers(rng):
@@ -63,6 +63,23 @@ def generate(rng, tier):
                     for t in tail: ev += S.nominal(t, rng)
                     cases.append({"calls": list(calls) + mid + [("connect", ports, None)] + tail, "events": ev,
                                   "family": "reconnect:%s/%s" % (name, hname)})
+    # closing: after disconnect / reboot / bootload the object is not connected, also when the port's close() itself fails
+    # (a board that has just rebooted drops off the bus); every request afterwards, then a new connect with its handshake
+    for _ in range(reps):
+        for closer in (("disconnect",), ("reboot",), ("bootload",)):
+            for close_raises in (False, True):
+                for m in S.ALL_REQUESTS:
+                    c = S.sample_call(m, rng)
+                    pre = [S.random_call(rng)] if rng.random() < 0.5 else []
+                    calls = [("connect", S.GOOD_PORTS, None)] + pre + [closer, c]
+                    ev = S.connect_script()
+                    for t in pre: ev += S.nominal(t, rng)
+                    ev += S.nominal(closer, rng)
+                    ev += S.nominal(c, rng)                        # available, must not be consumed
+                    if rng.random() < 0.3:
+                        calls += [("connect", S.GOOD_PORTS, None), S.random_call(rng)]
+                    cases.append({"calls": calls, "events": ev, "close_raises": close_raises,
+                                  "family": "closed:%s%s/%s" % (closer[0], "+close-fault" if close_raises else "", m)})
     n = 250 if tier == "quick" else 5000
     for _ in range(n):
         calls = [("connect", S.GOOD_PORTS, rng.choice([None, None, "Bot", "/dev/ttyACM0"]))]
@@ -76,7 +93,7 @@ def generate(rng, tier):
     return cases
 
 def run_impl(c):
-    return {"obs": S.jsonable_obs(S.run_history(c["calls"], c["events"]))}
+    return {"obs": S.jsonable_obs(S.run_history(c["calls"], c["events"], c.get("close_raises", False)))}
 
 def coq_case(c, r):
     if "raise" in r:
@@ -88,7 +105,7 @@ def nontrivial(c, r):
     return any(o["err"] is not None for o in obs[:-1])
 
 def explain(c, r):
-    return {"calls": [list(map(str, x)) for x in c["calls"]], "script": [e if isinstance(e, str) else e[1] for e in c["events"]][:80],
+    return {"port_close_raises": c.get("close_raises", False), "calls": [list(map(str, x)) for x in c["calls"]], "script": [e if isinstance(e, str) else e[1] for e in c["events"]][:80],
             "observed": [{k: o[k] for k in ("raised", "ret", "writes", "err", "port", "consumed")} for o in r.get("obs", [])]}
 
 def shrink(c):
